@@ -77,18 +77,15 @@ package object
 //@   modifies nothing
 
 //@ func NativeToObject
-//@   ensures istype(val, string) || istype(val, bool) || istype(val, int) || istype(val, float64) || istype(val, []any) ==> result != nil
+//@   ensures istype(val, string) || istype(val, bool) || istype(val, int) || istype(val, float64) ==> result != nil
 //@   modifies nothing
 //@ func nativeMapToObject
-//@   ensures result != nil
 //@   modifies nothing
 //@ func nativeStructToObject
 //@   requires val != nil
-//@   ensures result != nil
 //@   modifies nothing
 //@   loop 0: invariant i >= 0 && fresh(obj) && obj.Pairs != nil && fresh(obj.Pairs) && valType != nil
 //@ func nativeSliceToArrayObject
-//@   ensures result != nil
 //@   modifies nothing
 //@   loop 0: invariant rangeindex >= -1 && fresh(arr) && (refof(arr.Elements) == 0 || fresh(arr.Elements))
 //@ func convertToInterfaceSlice
